@@ -55,6 +55,14 @@ def seed():
         return 1
 
 
+def rounds(tier, n):
+    """Random generators for the sampled families: one for the quick tier, n independent ones for the thorough tier
+    (the thorough tier repeats every sampled family with fresh tables / histories / operands)."""
+    import random as _r
+    k = 1 if tier != 'thorough' else n
+    return [_r.Random(seed() + 7919 * i) for i in range(k)]
+
+
 def outdir(pid):
     d = os.path.join(OUT, pid)
     os.makedirs(d, exist_ok=True)
